@@ -19,6 +19,16 @@ static void pival_case(void) {
   if (chance(25)) { lp_polynomial_t* q = hp_random_poly(0, nv, 2, 2); lp_polynomial_mul(p, p, q); lp_polynomial_delete(q); }
   lp_interval_assignment_t* IM = lp_interval_assignment_new(hp_db);
   vival V[NVARS]; lp_interval_t I[NVARS];
+  /* sometimes the assignment was used before: every variable held a narrow interval, then lp_interval_assignment_reset; only
+     some variables are set again afterwards and the others must count as unconstrained */
+  int reuse = chance(25); int unset[NVARS] = { 0 };
+  if (reuse) {
+    for (int k = 0; k < NVARS; ++k) { lp_value_t z; lp_integer_t c; lp_integer_construct_from_int(lp_Z, &c, k); lp_value_construct(&z, LP_VALUE_INTEGER, &c);
+      lp_interval_t pt; lp_interval_construct_point(&pt, &z); lp_interval_assignment_set_interval(IM, hp_x[k], &pt);
+      lp_interval_destruct(&pt); lp_value_destruct(&z); lp_integer_destruct(&c); }
+    lp_interval_assignment_reset(IM);
+    for (int k = 0; k < NVARS; ++k) unset[k] = chance(40);
+  }
   for (int k = 0; k < NVARS; ++k) {
     vival_init(&V[k]); gen_vival(&V[k]);
     if (V[k].ainf || V[k].binf) {           /* finite boxes only: make the end points finite, keep them ordered */
@@ -26,12 +36,13 @@ static void pival_case(void) {
       if (!V[k].pt) { int c = mpq_cmp(V[k].a, V[k].b); if (c == 0) { mpq_t one; mpq_init(one); mpq_set_ui(one, 1, 1); mpq_add(V[k].b, V[k].b, one); mpq_clear(one); } else if (c > 0) mpq_swap(V[k].a, V[k].b); }
     }
     vi_from(&I[k], &V[k]);
-    lp_interval_assignment_set_interval(IM, hp_x[k], &I[k]);
+    if (!unset[k]) lp_interval_assignment_set_interval(IM, hp_x[k], &I[k]);
   }
-  sb_begin("pi", "value"); sb_sp();
+  sb_begin("pi", reuse ? "stale" : "value"); sb_sp();
   if (reversed) sb_str("0,1,2,3"); else sb_str("3,2,1,0");
   sb_sp(); sb_poly(p); sb_sp();
   for (int k = 0; k < NVARS; ++k) { if (k) sb_str(";"); sb_long(k); sb_str("="); sb_vival(&V[k]); }
+  if (reuse) { sb_sp(); int any = 0; for (int k = 0; k < NVARS; ++k) if (unset[k]) { if (any) sb_str(","); sb_long(k); any = 1; } if (!any) sb_str("_"); }
   sb_arrow();
   lp_interval_t out; int pre = (int)rnd(3);
   if (pre == 0) lp_interval_construct_zero(&out); else if (pre == 1) lp_interval_construct_full(&out); else lp_interval_construct_copy(&out, &I[0]);
